@@ -15,7 +15,7 @@ import (
 func init() {
 	register("C03", &propDef{
 		Title: "What is shipped is decided by .terraformignore semantics on archive paths",
-		Rules: []func(*Checker){ruleC03Emit, ruleC03Bundle, ruleC03Prune, ruleC03Arg, ruleC03Meta, ruleC03Glob, ruleC03LastWins, ruleC03Parse, ruleC03Off, ruleC03Shared, ruleC03RuleFile, ruleWalkRoles("C03.roles")},
+		Rules: []func(*Checker){ruleC03Emit, ruleC03Bundle, ruleC03Prune, ruleC03Arg, ruleC03Meta, ruleC03Glob, ruleC03LastWins, ruleC03Parse, ruleC03Off, ruleC03Shared, ruleC03RuleFile, ruleWalkRoles("C03.roles"), ruleBundleWalkChain("C03.bundlechain"), ruleC03MatchErr},
 		NotDecided: []string{
 			"the meaning of a whole pattern: composition of the translated fragments, the '**' forms beyond 'can cross separators', anchoring arithmetic (properties of run-time strings); C03.glob decides only the constant fragments emitted for '?', '*' and ordinary characters",
 			"the content of the built-in default rule table",
@@ -1154,6 +1154,20 @@ func ruleC03Parse(c *Checker) {
 		}
 	}
 	c.check(okHash, R, name, "'#' comment skipped", p.Pos(rd.Pos()), "a line starting with '#' adds no rule", "comment lines are no longer skipped")
+	// what stopped the scanner is asked before the rules are handed out
+	{
+		errCalls := callsTo(rd, func(o *types.Func) bool { return isMethod(o, "bufio", "Scanner", "Err") })
+		okErr := len(errCalls) > 0
+		for _, r := range successReturns(rd) {
+			if ok2, _ := mustPassBackward(r, func(in ssa.Instruction) bool {
+				ci, isC := in.(ssa.CallInstruction)
+				return isC && isMethod(calleeObj(ci), "bufio", "Scanner", "Err")
+			}); !ok2 {
+				okErr = false
+			}
+		}
+		c.check(okErr, R, name, "scanner error asked before the rules are returned", p.Pos(rd.Pos()), "every success return lies past scanner.Err()", "the rules are returned without asking the scanner why it stopped: a line longer than the scanner's buffer (or a read error) ends the loop early, and the rules read so far are used as if they were all — what a later rule excludes is shipped")
+	}
 	// the line loop is left only from its header (no break on a line that is merely skipped)
 	for _, ci := range callsTo(rd, func(o *types.Func) bool { return isMethod(o, "bufio", "Scanner", "Scan") }) {
 		cl, ok := ci.(*ssa.Call)
@@ -1312,6 +1326,32 @@ func ruleC03RuleFile(c *Checker) {
 			}
 			n++
 			c.check(isFunc(calleeObj(ci), "os", "Stat"), R, p.FuncName(fn), "rule file examined with Stat", p.Pos(ci.Pos()), "os.Stat", "the rule file is examined with os.Lstat: a .terraformignore that is a symbolic link to a regular file is classed as not regular, so the user's rules are not loaded — Pack silently applies only the built-in rules and ships what the user excluded")
+		}
+	}
+	_ = n
+}
+
+// C03.matcherr — a rule that does not compile matches nothing.
+func ruleC03MatchErr(c *Checker) {
+	const R = "C03.matcherr"
+	c.rule(R, "In the module's (bool, error) functions that answer 'does this rule match', a return with a non-nil error carries false: Pack ignores per-rule errors by design, so a true next to the error makes an uncompilable line ('[') match every path — everything is dropped from the slug.", 1)
+	p := c.P
+	n := 0
+	for _, fn := range p.Funcs {
+		if fn.Package() == nil || fn.Package().Pkg.Path() != p.PkgPath("ignorefiles") {
+			continue
+		}
+		res := fn.Signature.Results()
+		if res.Len() != 2 || !isBoolType(res.At(0).Type()) || !isErrorType(res.At(1).Type()) {
+			continue
+		}
+		for i, r := range returnsOf(fn) {
+			if mayReturnNilErr(r) {
+				continue
+			}
+			n++
+			b, isC := constBool(r.Results[0])
+			c.check(isC && !b, R, p.FuncName(fn), fmt.Sprintf("error return %d answers false", i), p.Pos(r.Pos()), "(false, err)", "an error return answers true (or a computed value): a rule that cannot be evaluated then counts as matching")
 		}
 	}
 	_ = n
